@@ -7,6 +7,8 @@
 -/
 import PyTough.Proofs.GridPhys
 import PyTough.Proofs.GridMincAll
+import PyTough.Proofs.GridPhysMore
+import PyTough.Proofs.GridPhysMoreMinc
 import PyTough.Props.C08
 namespace Props.C09
 open Py Model Model.Grid Model.Grid.World
@@ -166,6 +168,98 @@ theorem minc_keeps_total_volume {args : MincArgs} {fracs : List Rat} {N0 : Nat} 
 theorem minc_keeps_inv {w : World} (hI : Grid.Inv w) (args : MincArgs) : Grid.Inv (step w (.minc args)).w :=
   Props.C08.inv_step hI _ rfl
 
+/-! ### MINC: counts, and what it leaves alone -/
+
+/-- **Block and connection counts.**  Under the hypotheses of `minc_spec`, with `P` the number of
+    selected names whose block is processed (`0 < V < atmos_volume`, `Proofs.Grid.mincProcessed`) and
+    `L = len(volume_fractions)`: the original blocks and connections keep their places at the front of
+    `blocklist` / `connectionlist`, and exactly `P·(L−1)` new block objects and `P·(L−1)` new connection
+    objects are appended (one matrix block and one connection per processed block and matrix level);
+    unselected and boundary blocks contribute nothing. -/
+theorem minc_counts {w : World} (hI : Grid.Inv w) (args : MincArgs) {w' : World} {cols : List (List Nat)}
+    (hok : minc w args = .ok (w', cols))
+    (hnd : (if args.blocks.isEmpty then w.blocklist.map w.bname else args.blocks).Nodup)
+    (hall : ∀ n ∈ (if args.blocks.isEmpty then w.blocklist.map w.bname else args.blocks), (dget w.block n).isSome) :
+    let sel := if args.blocks.isEmpty then w.blocklist.map w.bname else args.blocks
+    let K := (sel.filter (Proofs.Grid.mincProcessed w args)).length * (args.fracs.length - 1)
+    w'.blocklist = w.blocklist ++ List.range' w.blks.length K ∧
+    w'.connectionlist = w.connectionlist ++ List.range' w.cons.length K ∧
+    w'.blocklist.length = w.blocklist.length + K ∧ w'.connectionlist.length = w.connectionlist.length + K := by
+  intro sel K
+  obtain ⟨h1, _, h3, _⟩ := Proofs.Grid.minc_frame hI args hok hnd hall
+  refine ⟨h1, h3, ?_, ?_⟩
+  · rw [h1]; simp only [List.length_append, List.length_range']; rfl
+  · rw [h3]; simp only [List.length_append, List.length_range']; rfl
+
+/-- **Inter-block connections and unselected blocks are untouched.**  Under the hypotheses of `minc_spec`:
+    (a) every connection object that existed keeps its two blocks, both distances, area, direction and
+        gravity cosine (`minc` in /repo does not rescale the fracture–fracture interface areas);
+    (b) every connection of the new grid whose second block is an original block — in particular every
+        connection between two original (now fracture) blocks — is one of the old connections, unchanged:
+        the new connections all end in a newly created matrix block;
+    (c) every connection of the new grid that touches an original block which was not processed
+        (unselected, or a boundary block) is one of the old connections, unchanged. -/
+theorem minc_leaves_other_connections {w : World} (hI : Grid.Inv w) (args : MincArgs) {w' : World} {cols : List (List Nat)}
+    (hok : minc w args = .ok (w', cols))
+    (hnd : (if args.blocks.isEmpty then w.blocklist.map w.bname else args.blocks).Nodup)
+    (hall : ∀ n ∈ (if args.blocks.isEmpty then w.blocklist.map w.bname else args.blocks), (dget w.block n).isSome) :
+    let sel := if args.blocks.isEmpty then w.blocklist.map w.bname else args.blocks
+    (∀ c, c < w.cons.length → w'.cn c = w.cn c) ∧
+    (∀ c ∈ w'.connectionlist, (w'.cn c).b1 < w.blks.length → c ∈ w.connectionlist ∧ w'.cn c = w.cn c) ∧
+    (∀ c ∈ w'.connectionlist, ∀ b ∈ w.blocklist, ((w'.cn c).b0 = b ∨ (w'.cn c).b1 = b) →
+        (∀ n ∈ sel, Proofs.Grid.mincProcessed w args n = true → dget w.block n ≠ some b) →
+        c ∈ w.connectionlist ∧ w'.cn c = w.cn c) := by
+  intro sel
+  obtain ⟨_, _, h3, ext, he, hlen, hext⟩ := Proofs.Grid.minc_frame hI args hok hnd hall
+  have hold : ∀ c, c < w.cons.length → w'.cn c = w.cn c := by
+    intro c hc
+    simp only [World.cn, he, List.getD_eq_getElem?_getD, List.getElem?_append_left hc]
+  have hnew : ∀ c ∈ w'.connectionlist, c ∉ w.connectionlist → w'.cn c ∈ ext := by
+    intro c hc hn
+    rw [h3] at hc
+    rcases List.mem_append.mp hc with h | h
+    · exact absurd h hn
+    · obtain ⟨hle, hlt⟩ := List.mem_range'_1.mp h
+      have hlt' : c - w.cons.length < ext.length := by omega
+      have e : w'.cn c = ext[c - w.cons.length] := by
+        simp only [World.cn, he, List.getD_eq_getElem?_getD, List.getElem?_append_right hle,
+          List.getElem?_eq_getElem hlt', Option.getD_some]
+      rw [e]; exact List.getElem_mem hlt'
+  refine ⟨hold, ?_, ?_⟩
+  · intro c hc hb1
+    by_cases hin : c ∈ w.connectionlist
+    · exact ⟨hin, hold c (hI.cl_lt c hin)⟩
+    · have := (hext _ (hnew c hc hin)).1
+      omega
+  · intro c hc b hb hends hnp
+    by_cases hin : c ∈ w.connectionlist
+    · exact ⟨hin, hold c (hI.cl_lt c hin)⟩
+    · obtain ⟨m1, m2⟩ := hext _ (hnew c hc hin)
+      have hblt := hI.bl_lt b hb
+      rcases hends with h | h
+      · rcases m2 with m2 | ⟨n, hn, hp, hd⟩
+        · omega
+        · exact absurd (h ▸ hd) (hnp n hn hp)
+      · omega
+
+/-- **The requested fractions, normalised.**  For one processed block (`MincGroup`, as delivered by
+    `minc_spec`) and *any* requested fractions `f₀, f₁, …` (they need not sum to 1): the fracture block
+    has volume `V·f₀/Σf` and matrix level `k+1` has `V·f_{k+1}/Σf`. -/
+theorem minc_group_volumes_normalised {args : MincArgs} {fracs : List Rat} {N0 : Nat} {w' : World} {V : Rat} {b : Nat} {row : List Nat}
+    (h : MincGroup args (normFracs fracs) N0 w' V b row) (hne : fracs ≠ []) :
+    ∃ base, (w'.bk b).volume = V * (fracs.headD 0 / sumRat fracs) ∧
+      ∀ k (hk : k + 1 < fracs.length), (w'.bk (base + k)).volume = V * (fracs[k + 1] / sumRat fracs) := by
+  obtain ⟨base, cbase, pos0, p, _, _, _, h4, h5, _⟩ := h
+  refine ⟨base, ?_, ?_⟩
+  · rw [h4]
+    cases fracs with
+    | nil => exact absurd rfl hne
+    | cons x r => rfl
+  · intro k hk
+    have hk' : k < ((normFracs fracs).drop 1).length := by simp [normFracs]; omega
+    rw [h5 k hk']
+    simp [normFracs]
+
 /-! ### embed -/
 
 /-- **embed_conserves_volume.**  Under the hypotheses of `Props.C08.embed_consistent`: when `embed`
@@ -186,6 +280,87 @@ theorem embed_conserves_volume {w : World} {sub : Grid} {c x0 x1 : Nat}
   obtain ⟨rfl, rfl⟩ := e
   exact hv rfl
 
+
+/-! ### explicit permutations and reversal subsets; the names' trip through a data file -/
+
+/-- **Every permutation, every reversal subset.**  `bl` any permutation of the grid's block objects,
+    `cl` any permutation of its connection objects, `rev` any subset of them: calling `reorder` with
+    the block names in the order `bl` and the connection names in the order `cl`, those in `rev`
+    written with their two block names swapped (`Proofs.Grid.reversalNames`), is within `pre`, leaves
+    the physical network unchanged and the grid consistent.
+    `_partial`: the extra (decidable) hypothesis says that a connection written reversed is not *also*
+    present in the grid as a second object under the swapped pair of names.  It cannot be dropped: with
+    both `(A,B)` and `(B,A)` registered, "`(A,B)` written reversed" *is* the name of the other connection,
+    `reorder` lists that one twice and loses the first (such a name list is outside `pre`; grids built
+    from a geometry never hold a pair of blocks connected in both orientations). -/
+theorem reorder_any_permutation_any_reversal_partial {w : World} (hI : Grid.Inv w) (bl cl : List Nat) (rev : Nat → Bool)
+    (hb : bl.Perm w.blocklist) (hc : cl.Perm w.connectionlist)
+    (hanti : ∀ c ∈ cl, rev c = true → dget w.connection ((w.ckey c).2, (w.ckey c).1) = none) :
+    let op := Op.reorder (bl.map w.bname) (Proofs.Grid.reversalNames w cl rev)
+    pre w op = true ∧ PhysEq w (step w op).w ∧ Grid.Inv (step w op).w := by
+  intro op
+  have hpre := Proofs.Grid.pre_reorder_of_perm hI bl cl rev hb hc hanti
+  exact ⟨hpre, reorder_preserves_phys hI _ _ hpre⟩
+
+/-- **A whole history of such calls.**  A history in which every step is a `reorder` given by an
+    explicit permutation and reversal subset of the *current* state (as above) or a `rename_blocks`
+    with a map keeping the names distinct: built step by step from these data, it is within
+    `PreAllRR`, so by `compose_preserves_phys` the final state describes the same network as the first. -/
+theorem history_of_explicit_steps_preserves_phys {w : World} (hI : Grid.Inv w) (ops : List Op)
+    (h : PreAllRR w ops) (bl cl : List Nat) (rev : Nat → Bool)
+    (hb : bl.Perm (run w ops).blocklist) (hc : cl.Perm (run w ops).connectionlist)
+    (hanti : ∀ c ∈ cl, rev c = true →
+      dget (run w ops).connection (((run w ops).ckey c).2, ((run w ops).ckey c).1) = none) :
+    let last := Op.reorder (bl.map (run w ops).bname) (Proofs.Grid.reversalNames (run w ops) cl rev)
+    PreAllRR w (ops ++ [last]) ∧ PhysEq w (run w (ops ++ [last])) ∧ Grid.Inv (run w (ops ++ [last])) := by
+  intro last
+  have h0 := compose_preserves_phys hI ops h
+  have hpre := Proofs.Grid.pre_reorder_of_perm h0.2 bl cl rev hb hc hanti
+  have happ : ∀ (w1 : World) (l : List Op), PreAllRR w1 l → pre (run w1 l) last = true → PreAllRR w1 (l ++ [last]) := by
+    intro w1 l
+    induction l generalizing w1 with
+    | nil => intro _ hp; exact ⟨rfl, hp, trivial⟩
+    | cons op r ih => intro hl hp; exact ⟨hl.1, hl.2.1, ih _ hl.2.2 hp⟩
+  have hall := happ w ops h hpre
+  exact ⟨hall, compose_preserves_phys hI _ hall⟩
+
+/-- **The file leg for block names.**  Writing the grid to a data file and reading it back gives every
+    block the name `fileName n = fix_blockname (unfix_blockname n)` (C01 `block_name_cycle`), i.e. acts
+    on the names as `rename_blocks (fileNameMap w)`.  After any `rename_blocks` step within its
+    precondition, whenever the names that come back are still distinct, that trip leaves the physical
+    network unchanged and the grid consistent.  (Names only: the rounding of volumes, distances and
+    areas to the widths of the ELEME/CONNE fields is C01's subject and is checked here by the oracle.) -/
+theorem rename_then_file_names_preserves_phys {w : World} (hI : Grid.Inv w) (m : Dict Name Name) (fix : Bool)
+    (hpre : pre w (.renameBlocks m fix) = true) :
+    let w1 := (step w (.renameBlocks m fix)).w
+    (w1.blocklist.map fun b => Proofs.Grid.fileName (w1.bname b)).Nodup →
+    PhysEq w (step w1 (.renameBlocks (Proofs.Grid.fileNameMap w1) false)).w ∧
+    Grid.Inv (step w1 (.renameBlocks (Proofs.Grid.fileNameMap w1) false)).w := by
+  intro w1 hnd
+  obtain ⟨p1, i1⟩ := rename_preserves_phys hI m fix hpre
+  obtain ⟨p2, i2⟩ := rename_preserves_phys i1 (Proofs.Grid.fileNameMap w1) false (Proofs.Grid.pre_fileNameMap hnd)
+  exact ⟨p1.trans p2, i2⟩
+
+/-- **Names the file format can carry survive the trip.**  If every block name of a consistent grid is
+    `Canonical` (five characters, not of the two shapes `d·' '·d` / `non-digit·'0'·d` that `unfix`/`fix`
+    rewrite — C13 `name_written_then_read`), then the trip through the file is within the precondition
+    of `rename_blocks`, keeps the block list, and every block comes back under the *same* name. -/
+theorem canonical_names_survive_file {w : World} (hI : Grid.Inv w)
+    (hcan : ∀ b ∈ w.blocklist, Proofs.Incon.Canonical (w.bname b)) :
+    let op := Op.renameBlocks (Proofs.Grid.fileNameMap w) false
+    pre w op = true ∧ (step w op).w.blocklist = w.blocklist ∧
+    (∀ b ∈ w.blocklist, (step w op).w.bname b = w.bname b) ∧ PhysEq w (step w op).w := by
+  intro op
+  have hnd : (w.blocklist.map fun b => Proofs.Grid.fileName (w.bname b)).Nodup := by
+    rw [Proofs.Grid.fileNames_canonical hcan]; exact Proofs.Grid.nodup_block_names hI
+  have hpre := Proofs.Grid.pre_fileNameMap hnd
+  obtain ⟨f1, f3⟩ := Proofs.Grid.rename_false_names hI _ hpre
+  refine ⟨hpre, ?_, ?_, (rename_preserves_phys hI _ false hpre).1⟩
+  · simp only [op, step, Proofs.Grid.ofR_w]; exact f1
+  · intro b hb
+    simp only [op, step, Proofs.Grid.ofR_w]
+    rw [f3 b hb, Proofs.Grid.mapName_fileNameMap w hb, Proofs.Grid.fileName_canonical (hcan b hb)]
+
 namespace Examples
 open Props.C08.Examples
 
@@ -201,6 +376,21 @@ example : ((step w0 ro).w.cn 1).b0 = 2 ∧ ((step w0 ro).w.cn 1).d0 = 3 ∧ ((st
 -- … and its physical signature is the same
 example : conPhys (step w0 ro).w 1 = conPhys w0 1 := by decide
 
+-- explicit permutation [C, A, B] of the blocks, connections in the order [1, 0] with connection 1 reversed
+example : [2, 0, 1].Perm w0.blocklist ∧ [1, 0].Perm w0.connectionlist ∧
+    (∀ c ∈ [1, 0], (fun c => c == 1) c = true → dget w0.connection ((w0.ckey c).2, (w0.ckey c).1) = none) ∧
+    Proofs.Grid.reversalNames w0 [1, 0] (fun c => c == 1) = [(C, B), (A, B)] := by decide
+-- … and after the history [ro, rn] a further explicit step (hypotheses of `history_of_explicit_steps_preserves_phys`)
+example : PreAllRR w0 [ro, rn] ∧ [0, 1, 2].Perm (run w0 [ro, rn]).blocklist ∧ [0, 1].Perm (run w0 [ro, rn]).connectionlist ∧
+    (∀ c ∈ [0, 1], (fun c => c == 0) c = true →
+      dget (run w0 [ro, rn]).connection (((run w0 [ro, rn]).ckey c).2, ((run w0 [ro, rn]).ckey c).1) = none) := by decide
+-- the file leg: the names of w0 are canonical; a grid with the names "ab107"/"ab1 7" is not (they collide in the file)
+example : ∀ b ∈ w0.blocklist, Proofs.Incon.Canonical (w0.bname b) := by decide
+example : pre w0 rn = true ∧
+    ((step w0 rn).w.blocklist.map fun b => Proofs.Grid.fileName ((step w0 rn).w.bname b)).Nodup := by decide
+example : Proofs.Grid.fileName ['a','b','c','0','7'] = ['a','b','c',' ','7'] ∧
+    Proofs.Grid.fileName ['a','b','1',' ','7'] = ['a','b','1','0','7'] := by decide
+
 -- MINC on block B (volume 2) with fractions 1 : 1 : 2 : fracture 1/2, matrix 1/2 and 1, chained B → 1B → 2B
 def mi : Op := .minc ⟨[1, 1, 2], [3, 5], [0, 7, 11], [B], 1000⟩
 example : let o := step w0 mi
@@ -210,6 +400,18 @@ example : let o := step w0 mi
     ((o.w.cn 3).b0, (o.w.cn 3).b1, (o.w.cn 3).area, (o.w.cn 3).d0, (o.w.cn 3).d1) = (3, 4, 10, 7, 11) ∧
     checkInv o.w = true := by decide +kernel
 example : sumRat [1, 1, 2] ≠ 0 := by decide +kernel
+
+-- hypotheses of `minc_counts` / `minc_leaves_other_connections`: all blocks selected (default), fractions 1 : 1 : 2
+-- (sum 4, not 1), atmos_volume 3 so that block C (volume 4) is a boundary block: P = 2 processed blocks, K = 2·2 new
+-- blocks and connections; the two old connections A-B, B-C are still objects 0 and 1 with the same data
+def miAll : MincArgs := ⟨[1, 1, 2], [3, 5], [0, 7, 11], [], 3⟩
+example : (match minc w0 miAll with | .ok _ => true | .error _ => false) = true ∧
+    (w0.blocklist.map w0.bname).Nodup ∧ (∀ n ∈ w0.blocklist.map w0.bname, (dget w0.block n).isSome) ∧
+    ((w0.blocklist.map w0.bname).filter (Proofs.Grid.mincProcessed w0 miAll)).length = 2 := by decide +kernel
+example : let o := step w0 (.minc miAll)
+    o.w.blocklist = [0, 1, 2, 3, 4, 5, 6] ∧ o.w.connectionlist = [0, 1, 2, 3, 4, 5] ∧
+    o.w.cn 0 = w0.cn 0 ∧ o.w.cn 1 = w0.cn 1 ∧ (o.w.bk 2).volume = 4 ∧
+    (o.w.bk 0).volume = 1/4 ∧ (o.w.bk 3).volume = 1/4 ∧ (o.w.bk 4).volume = 1/2 := by decide +kernel
 
 end Examples
 end Props.C09
